@@ -179,6 +179,10 @@ func (a *AggregatePlan) prepare(ctx *ExecuteCtx) error {
 		if k == nil && v == nil && err == nil {
 			break
 		}
+		if ctx != nil {
+			// Field results cached for the previous pair must not be reused for this one
+			clear(ctx.FieldCaches)
+		}
 		aggrKey, err := a.getAggrKey(k, v, ctx)
 		if err != nil {
 			return err
@@ -217,6 +221,10 @@ func (a *AggregatePlan) prepareBatch(ctx *ExecuteCtx) error {
 		}
 
 		for i, aggrKey := range aggrKeys {
+			if ctx != nil {
+				// Field results cached for the previous pair must not be reused for this one
+				clear(ctx.FieldCaches)
+			}
 			row, have := a.aggrMap[aggrKey]
 			if !have {
 				row, err = a.createAggrRow(kvps[i], ctx)
